@@ -34,6 +34,7 @@ from gapic.generator import formatter
 from gapic.schema import api
 from gapic import utils
 from gapic.utils import Options
+from gapic.utils import verif_trace
 from google.protobuf.compiler.plugin_pb2 import CodeGeneratorResponse
 
 
@@ -118,6 +119,10 @@ class Generator:
             # Quick check: Skip "private" templates.
             filename = template_name.split("/")[-1]
             if filename.startswith("_") and filename != "__init__.py.j2":
+                if verif_trace.ENABLED:
+                    verif_trace.emit(
+                        "File", template=template_name, disposition="private"
+                    )
                 continue
 
             # Append to the output files dictionary.
@@ -211,6 +216,16 @@ class Generator:
 
                 snippet_metadata.file = fpath
                 snippet_metadata.title = fpath
+                if verif_trace.ENABLED:
+                    verif_trace.emit(
+                        "Sample",
+                        region_tag=spec.get("region_tag"),
+                        id=spec["id"],
+                        rpc=spec.get("rpc"),
+                        service=spec.get("service"),
+                        transport=spec.get("transport"),
+                        file=fpath,
+                    )
 
                 index.add_snippet(snippet_index.Snippet(sample, snippet_metadata))
 
@@ -354,6 +369,13 @@ class Generator:
                     )
                     or ("rest_base" in template_name and "rest" not in opts.transport)
                 ):
+                    if verif_trace.ENABLED:
+                        verif_trace.emit(
+                            "File",
+                            template=template_name,
+                            disposition="gated",
+                            service=service.name,
+                        )
                     continue
 
                 answer.update(
@@ -414,7 +436,23 @@ class Generator:
         if utils.empty(cgr_file.content) and not fn.endswith(
             ("py.typed", "__init__.py")
         ):
+            if verif_trace.ENABLED:
+                verif_trace.emit(
+                    "File",
+                    template=template_name,
+                    disposition="empty",
+                    name=fn.split("/"),
+                )
             return {}
+        if verif_trace.ENABLED:
+            verif_trace.emit(
+                "File",
+                template=template_name,
+                disposition="emitted",
+                name=fn.split("/"),
+                service=context["service"].name if "service" in context else None,
+                proto=context["proto"].name if "proto" in context else None,
+            )
 
         # Return the filename and content in a length-1 dictionary
         # (because we track output files overall in a dictionary).
